@@ -32,7 +32,30 @@ def gen_cases(tier, seed):
     # scale: disconnected graphs with thousands of vertices (thorough: beyond 2**16), many components that each hold edges
     for i in range(4 if tier == "quick" else 40):
         cases.append({"seed": seed * 100237 + 900000 + i, "large": (2100, 6000) if tier == "quick" or i % 4 else (66000, 72000), "_cost": 30})
+    # scale in the number of VERTICES: more than 2**20 of them (nearly all isolated), edges between vertices at low and at high positions
+    for i in range(1 if tier == "quick" else 3):
+        cases.append({"seed": seed * 100237 + 950000 + i, "huge": True, "_cost": 400})
     return cases
+
+
+def huge_graph(rng):
+    n = (1 << 20) + rng.randint(40, 400)
+    g = nx.Graph()
+    g.add_nodes_from(range(n))
+    low = rng.sample(range(0, 48), 14)
+    high = [(1 << 20) + j for j in rng.sample(range(0, 40), 14)]
+    act = low + high
+    for i, a in enumerate(act):
+        for b in act[i + 1:]:
+            if rng.random() < 0.3:
+                g.add_edge(a, b)
+    # pairs whose positions differ by exactly 2**20 in one end and 1 in the other
+    for _ in range(6):
+        a, j = rng.randrange(0, 40), rng.randrange(0, 40)
+        g.add_edge(a, (1 << 20) + j)
+        if a + 1 != j:
+            g.add_edge(a + 1, j)
+    return "%d vertices (more than 2**20), %d edges among 28 + a few of them" % (n, g.number_of_edges()), g
 
 
 def large_graph(rng, lo, hi):
@@ -119,14 +142,18 @@ def run_case(case):
     import gcmpy
     res = Result()
     rng = random.Random(case["seed"])
-    if case.get("large"):
-        d, g0 = large_graph(rng, *case["large"])
-        res.count("large_disconnected_graphs")
+    if case.get("large") or case.get("huge"):
+        if case.get("huge"):
+            d, g0 = huge_graph(rng)
+            res.count("graphs_with_more_than_2**20_vertices")
+        else:
+            d, g0 = large_graph(rng, *case["large"])
+            res.count("large_disconnected_graphs")
         res.seen("large_graph_orders_in_thousands", g0.number_of_nodes() // 1000)
         max_size = rng.choice([0, 0, 3])
         cliques = list(nx.enumerate_all_cliques(g0))
         base = {"graph": d, "edges": sorted(tuple(sorted(e)) for e in list(g0.edges())[:40]), "nodes": g0.number_of_nodes(), "max_size": max_size}
-        for val in (1, 2):
+        for val in ((1, 2) if not case.get("huge") else (1,)):
             g = g0.copy()
             with installed(RandomTap(seed=val, keep_log=False), "mpcc"):
                 out = sut("MPCC", gcmpy.MPCC, g, max_size)
